@@ -217,8 +217,8 @@ func scnC20(rc *RunCtx) {
 	ctx, cancel := context.WithCancel(context.Background())
 	rc.Cleanup(cancel)
 	events := make(chan fsnotify.Event)
-	r := dirreader.SimStartLogDirReader(ctx, dir, entries, events, mfs)
 	sink := &lineSink{}
+	r := dirreader.SimStartLogDirReader(ctx, dir, entries, events, mfs)
 	rc.Sim.Spawn("consumer", func() {
 		for {
 			c0, c1 := simrt.Recv(r.Lines()), simrt.Recv(ctx.Done())
@@ -255,11 +255,35 @@ func scnC20(rc *RunCtx) {
 		ok := settle()
 		return ok && sent.v
 	}
+	var ops []string
+	// early change: the live file is appended to (and its WRITE event delivered) while the
+	// initial read of that file is still in progress because the consumer is slow
+	if hasLive && pendingIdx < 0 && len(mfs.files[live]) > 0 && t.Choose(3, "early.append") == 0 {
+		liveLines := strings.Count(string(mfs.files[live]), "\n")
+		stallAt := len(expect) - liveLines + t.Choose(liveLines, "early.stall.at")
+		rc.Sim.Frozen = func(name string) bool { return name == "consumer" && len(sink.got) >= stallAt }
+		settle()
+		l := mkLine(false)
+		expect = append(expect, l)
+		mfs.files[live] = append(mfs.files[live], (l + "\n")...)
+		ops = append(ops, "append-during-initial-read")
+		rc.Sim.Count("fs.append_during_initial_read")
+		sent := &doneFlag{}
+		rc.Sim.Spawn("world.fsevent-early", func() {
+			simrt.ChanSend(events, fsnotify.Event{Name: live, Op: fsnotify.Write}, "world.fsevent")
+			sent.set(nil)
+		})
+		settle()
+		rc.Sim.Frozen = nil
+		if !settle() || !sent.v {
+			rc.Abort("early event not consumed: %v", rc.Sim.Live())
+			return
+		}
+	}
 	if !settle() {
 		rc.Abort("initial read did not settle: %v", rc.Sim.Live())
 		return
 	}
-	var ops []string
 	nops := 1 + t.Choose(25, "nops")
 	nontrivialOp := false
 	appendBytes := func(b string) { mfs.files[live] = append(mfs.files[live], b...) }
